@@ -78,6 +78,7 @@ try:
     _TARGETS.append(("dateutil", _dtz.gettz("Europe/Paris")))
 except Exception:  # noqa: BLE001
     pass
+ACC += [("timetz()", lambda d: (lambda t: (t.isoformat(), t.utcoffset(), t.tzname(), t.dst(), t.tzinfo is None, t.fold))(d.timetz()))]
 # the format() protocol with strftime specifications, also where every directive sits inside square brackets
 _SPECS = ["%Y-%m-%d %H:%M:%S", "[%Y-%m-%d %H:%M:%S]", "[%H:%M:%S.%f]", "[log] %H:%M", "[%a] %d %b [%Y]", "%%Y [%j]", ""]
 ACC += [("format(%r)" % sp, (lambda sp: (lambda d: (format(d, sp), "{:{}}".format(d, sp) if sp else "{}".format(d))))(sp)) for sp in _SPECS]
@@ -187,7 +188,13 @@ def run(M, c):
             M.check("types", type(v) is ty, f"C11/type:{n}", f"{n} does not return the pendulum type", got=type(v).__name__, **ctx)
         return
     if k in ("fixed", "naive"):
-        if k == "fixed":
+        if k == "fixed" and c["u"] % 3 == 0:
+            # the tzinfo is a standard-library one (what fromisoformat(), astimezone(timezone(..)) and the plain constructor
+            # leave on a DateTime), not one of pendulum's classes
+            tz = dt.timezone(dt.timedelta(seconds=c["off"])) if c["u"] % 2 else zoneinfo.ZoneInfo(("Europe/Paris", "Asia/Kolkata", "America/St_Johns")[c["u"] // 6 % 3])
+            F = us_to_fields(c["u"] + (c["off"] if c["u"] % 2 else 0) * US)
+            k = "fixed-stdlib-tzinfo"
+        elif k == "fixed":
             tz = P.tz.timezone.FixedTimezone(c["off"])
             F = us_to_fields(c["u"] + c["off"] * US)
         else:
